@@ -6,15 +6,14 @@ The statement allows the result of ONE application to be
       - the percent-decoded value of a redirect-like query parameter,
       - that value joined to the input when it is relative,
       - the tail of an AMP / Marfeel cache path.
-This module enumerates, for an input string, a deliberately GENEROUS set of such targets (every reading of the
-statement that we could think of is accepted), so that the provenance clause never demands more than the statement.
-Nothing here imports ural.  urllib.parse.urljoin is used as the reference for "joined to the input" (RFC 3986
-reference resolution); the percent-decoder is our own.
+This module decides, for an input string and a result, whether the result is such a target, with a deliberately
+GENEROUS reading (every reading of the statement that we could think of is accepted), so that the provenance clause
+never demands more than the statement.  Nothing here imports ural.  urllib.parse.urljoin is used as the reference for
+"joined to the input" (RFC 3986 reference resolution); the percent-decoder is our own.
 """
+import functools
 import re
 from urllib.parse import urljoin as _std_urljoin
-
-HEX = frozenset("0123456789abcdefABCDEF")
 
 # keys named by the quantifier ("url, u, l, q, next, redirect, redirect_to, target, link, goto, ...") and the usual
 # relatives of the "..." ; plus any key that contains one of the stems below.  Look-alikes such as "xu", "uu", "ql"
@@ -28,28 +27,28 @@ REDIRECT_STEMS = ("redir", "url", "uri", "link", "target", "goto", "next", "dest
 # generous reading of "AMP / Marfeel cache path": any occurrence, any case, leading dot optional
 CACHE_MARK_RE = re.compile(r"ampproject\.org/[cv]/|marfeelcache\.com/amp/|marfeel\.com/", re.I)
 
+# a parameter name starts the string or follows '?' / '&', and contains none of ? & / # =
+_KEY_RE = re.compile(r"(?:^|(?<=[?&]))([^?&/#=]+)=")
+
+_ESC_RE = re.compile(rb"%([0-9a-fA-F]{2})")
+
+
+def _byte(m):
+    return bytes((int(m.group(1), 16),))
+
 
 def pdecode(s):
-    """strict percent-decoder: returns (text, exact).  Well-formed %XX escapes are replaced by their byte, everything
-    else is kept; the byte string is read as UTF-8.  exact is False when that is not valid UTF-8 (the statement does not
-    say what "percent-decoded" means then -> callers must not judge)."""
+    """strict percent-decoder: returns (text, exact).  Well-formed %XX escapes (scanned left to right) are replaced by
+    their byte, everything else is kept; the byte string is read as UTF-8.  exact is False when that is not valid
+    UTF-8 (the statement does not say what "percent-decoded" means then -> callers must not judge)."""
     if "%" not in s:
         return s, True
-    out = bytearray()
-    i, n = 0, len(s)
-    while i < n:
-        c = s[i]
-        if c == "%" and i + 2 < n and s[i + 1] in HEX and s[i + 2] in HEX:
-            out.append(int(s[i + 1:i + 3], 16))
-            i += 3
-        else:
-            try:
-                out.extend(c.encode("utf-8"))
-            except UnicodeEncodeError:
-                return s, False
-            i += 1
     try:
-        return out.decode("utf-8"), True
+        raw = s.encode("utf-8")
+    except UnicodeEncodeError:
+        return s, False
+    try:
+        return _ESC_RE.sub(_byte, raw).decode("utf-8"), True
     except UnicodeDecodeError:
         return s, False
 
@@ -58,79 +57,79 @@ def is_redirect_like(key):
     k = key.lower()
     if k in REDIRECT_KEYS:
         return True
-    return any(st in k for st in REDIRECT_STEMS)
+    for st in REDIRECT_STEMS:
+        if st in k:
+            return True
+    return False
 
 
+@functools.lru_cache(maxsize=2048)
 def redirect_params(s):
     """every (key, raw_value) with a redirect-like key that starts the string or follows '?' or '&' (wherever that is:
     the statement does not say how the query is delimited in a malformed URL, so every position is accepted).
     raw_value runs to the next '&' (or the end); the reading that stops at '#' is produced as well."""
     out = []
     n = len(s)
-    starts = [0] + [i + 1 for i, c in enumerate(s) if c in "?&"]
-    for i in starts:
-        j = s.find("=", i)
-        if j < 0:
+    for m in _KEY_RE.finditer(s):
+        if not is_redirect_like(m.group(1)):
             continue
-        key = s[i:j]
-        if not key or any(c in key for c in "?&/#=") or not is_redirect_like(key):
-            continue
-        k = s.find("&", j + 1)
+        j = m.end()
+        k = s.find("&", j)
         if k < 0:
             k = n
-        raw = s[j + 1:k]
-        out.append((key, raw))
+        raw = s[j:k]
+        out.append((m.group(1), raw))
         h = raw.find("#")
         if h >= 0:
-            out.append((key, raw[:h]))
-    return out
+            out.append((m.group(1), raw[:h]))
+    return tuple(out)
 
 
+@functools.lru_cache(maxsize=2048)
 def cache_tails(s):
+    """every reading of "the tail of an AMP / Marfeel cache path": what follows any cache marker of s"""
     out = []
     for m in CACHE_MARK_RE.finditer(s):
         tail = s[m.end():]
         out.append(tail)
         if tail[:2].lower() == "s/":          # .../c/s/<tail> : the "s/" (https) marker belongs to the cache prefix
             out.append(tail[2:])
-    return out
+    return tuple(out)
 
 
 def has_candidate(s):
     """independent non-triviality test: the input carries a redirect-like parameter or a cache marker"""
-    return bool(redirect_params(s)) or CACHE_MARK_RE.search(s) is not None
+    return bool(redirect_params(s)) or bool(cache_tails(s))
 
 
-def allowed_targets(s):
-    """(set of allowed one-step results other than s itself, undecidable flag)"""
-    allowed = set()
+def provenance_ok(s, result):
+    """True / False / None (None: statement silent -> do not judge).
+    Allowed results other than s itself, for every redirect-like parameter (key, raw) of s with dec = pdecode(raw):
+      dec                                  the percent-decoded value, as is
+      'https://' + dec, 'http://' + dec    a scheme-less target completed with a scheme
+      urljoin(s, dec)                      "joined to the input when relative" (RFC 3986, whatever dec looks like)
+    and for every cache marker of s with tail = rest of s:  tail, 'https://' + tail, 'http://' + tail."""
+    if result == s:
+        return True
     undecidable = False
+    decs = []
     for _key, raw in redirect_params(s):
         dec, exact = pdecode(raw)
         if not exact:
             undecidable = True
             continue
-        allowed.add(dec)
-        allowed.add("https://" + dec)            # scheme-less target completed with a scheme
-        allowed.add("http://" + dec)
+        if result == dec or result == "https://" + dec or result == "http://" + dec:
+            return True
+        decs.append(dec)
+    for tail in cache_tails(s):
+        if result == tail or result == "https://" + tail or result == "http://" + tail:
+            return True
+    for dec in decs:
         try:
-            allowed.add(_std_urljoin(s, dec))    # "joined to the input when relative"
+            if result == _std_urljoin(s, dec):
+                return True
         except ValueError:
             pass
-    for tail in cache_tails(s):
-        allowed.add(tail)
-        allowed.add("https://" + tail)
-        allowed.add("http://" + tail)
-    return allowed, undecidable
-
-
-def provenance_ok(s, result):
-    """True / False / None (None: statement silent -> do not judge)"""
-    if result == s:
-        return True
-    allowed, undecidable = allowed_targets(s)
-    if result in allowed:
-        return True
     if undecidable:
         return None
     return False
